@@ -1,6 +1,7 @@
 package workers
 
 import (
+	"errors"
 	"bytes"
 	"fmt"
 	"io"
@@ -26,6 +27,7 @@ type cliReq struct {
 	Body     []byte
 	BodyMode int // 0 none, 1 buffered, 2 stream declared, 3 stream unknown length
 	ReadChunk int
+	BodyErrAt int // > 0 (streamed bodies only): the body reader fails once BodyErrAt-1 bytes have been handed out
 	// response script
 	Status     int
 	RespFields []F
@@ -46,9 +48,16 @@ type cliReq struct {
 type slowReader struct {
 	b     []byte
 	chunk int
+	errAt int
+	given int
 }
 
+var errBodyReader = errors.New("scenario: the request body reader failed")
+
 func (s *slowReader) Read(p []byte) (int, error) {
+	if s.errAt > 0 && s.given >= s.errAt-1 {
+		return 0, errBodyReader
+	}
 	if len(s.b) == 0 {
 		return 0, io.EOF
 	}
@@ -56,6 +65,10 @@ func (s *slowReader) Read(p []byte) (int, error) {
 	if s.chunk > 0 && n > s.chunk {
 		n = s.chunk
 	}
+	if s.errAt > 0 && s.given+n > s.errAt-1 {
+		n = s.errAt - 1 - s.given
+	}
+	s.given += n
 	n = copy(p[:n], s.b)
 	s.b = s.b[n:]
 	return n, nil
@@ -223,9 +236,9 @@ func (q *cliReq) build(req *fasthttp.Request) {
 	case 1:
 		req.SetBody(q.Body)
 	case 2:
-		req.SetBodyStream(&slowReader{b: q.Body, chunk: q.ReadChunk}, len(q.Body))
+		req.SetBodyStream(&slowReader{b: q.Body, chunk: q.ReadChunk, errAt: q.BodyErrAt}, len(q.Body))
 	case 3:
-		req.SetBodyStream(&slowReader{b: q.Body, chunk: q.ReadChunk}, -1)
+		req.SetBodyStream(&slowReader{b: q.Body, chunk: q.ReadChunk, errAt: q.BodyErrAt}, -1)
 	}
 }
 
